@@ -821,3 +821,82 @@ def r17_e(ctx):
     rr.instances += n
     rr.discharged += n - len(rr.findings)
     return rr
+
+
+def r19_i(ctx):
+    """the only characters that rules may drop silently are NUL and DEL"""
+    t = table(ctx)
+    A = t.alphabet
+    rr = RuleResult('R19.i', 'the categories whose characters a rule may consume without emitting (Ignored, Invalid) '
+                    'contain only NUL and DEL', floor=2)
+    for cname in ('Ignored', 'Invalid'):
+        cc = A.CC.members.get(cname)
+        if cc is None:
+            raise AnalysisError('CC.%s vanished' % cname)
+        chars = A.chars_of(cc) or []
+        extra = sorted(set(chars) - {'\x00', '\x7f'})
+        rr.ob(not extra, {'category': cname, 'characters': [repr(c) for c in chars]})
+        if extra:
+            rr.fail(Finding('R19.i', 'category', 'CATEGORY_CODES', 'CC.%s contains %s' % (cname, [repr(c) for c in extra]),
+                            'the characters %s are categorised as %s: the tokenizer drops such characters silently at the '
+                            'start of a token, so they vanish from the token stream and from the serialised document'
+                            % ([repr(c) for c in extra], cname), line=0))
+    if A.default_cc.mname in ('Ignored', 'Invalid'):
+        rr.ob(False)
+        rr.fail(Finding('R19.i', 'category', 'categorize', 'fallback category %s' % A.default_cc.mname,
+                        'characters outside the table fall into a silently dropped category', line=0))
+    return rr
+
+
+def lint_concat_for(label, want):
+    """the implicit-concatenation lint restricted to the collections a property depends on;
+    want(module_name, collection_name) -> bool"""
+    def rule(ctx):
+        rr = lint_implicit_concat(ctx)
+        rr.findings = [f for f in rr.findings if want(f.module, f.function)]
+        rr.id = 'L.concat'
+        return rr
+    rule.__name__ = 'lint_concat_' + label
+    return rule
+
+
+def lint_implicit_concat(ctx):
+    """adjacent string literals inside a collection display (a missing comma)"""
+    import io
+    import tokenize as _tk
+    repo = ctx.repo
+    rr = RuleResult('L.concat', 'no collection of names is written with two adjacent string literals (a missing comma '
+                    'silently merges two names into one that matches neither)', floor=5)
+    for m in repo.modules.values():
+        try:
+            toks = list(_tk.generate_tokens(io.StringIO(m.src).readline))
+        except (_tk.TokenError, IndentationError):
+            raise AnalysisError('module %s cannot be tokenized' % m.name)
+        # positions of adjacent STRING tokens (only NL/COMMENT between them)
+        adj = []
+        prev = None
+        for tk in toks:
+            if tk.type == _tk.STRING:
+                if prev is not None:
+                    adj.append((prev, tk))
+                prev = tk
+            elif tk.type in (_tk.NL, _tk.COMMENT, _tk.NEWLINE) and prev is not None and tk.type != _tk.NEWLINE:
+                continue
+            else:
+                prev = None
+        displays = [n for n in ast.walk(m.tree) if isinstance(n, (ast.Tuple, ast.List, ast.Set)) and n.elts
+                    and all(isinstance(e, ast.Constant) and isinstance(e.value, str) for e in n.elts)]
+        for d in displays:
+            bad = []
+            for e in d.elts:
+                for a, b in adj:
+                    if (a.start[0], a.start[1]) >= (e.lineno, e.col_offset) and (b.end[0], b.end[1]) <= (e.end_lineno, e.end_col_offset):
+                        bad.append((e, a, b))
+            owner = getattr(d, '_parent', None)
+            name = norm(owner.targets[0]) if isinstance(owner, ast.Assign) else 'collection at line %d' % d.lineno
+            rr.ob(not bad, {'module': m.name, 'collection': name, 'elements': len(d.elts)})
+            for e, a, b in bad:
+                rr.fail(Finding('L.concat', m.name, name, '%s: %s %s' % (name, a.string, b.string),
+                                'the collection %s contains the adjacent literals %s %s without a comma: they are one element '
+                                '%r, so neither name is in the collection' % (name, a.string, b.string, e.value), line=e.lineno))
+    return rr
